@@ -55,6 +55,10 @@ type entry struct {
 	Call  func(in []byte)
 	Seeds func() [][]byte
 	Text  bool // the entry point takes text: mutations stay mostly printable
+	// Codes: the one-byte type/opcode/identifier codes of the format (codes.go), tried at every
+	// position like the generic boundary values - or, when CodesAt is set, at the positions it returns.
+	Codes   []byte
+	CodesAt func(seed []byte) []int
 }
 
 // scripted connection for the NBT Receive entry point
@@ -300,7 +304,8 @@ func entries() []entry {
 	mat := kccrypto.RSAKeyMaterial{Exponent: 65537, Modulus: bytes.Repeat([]byte{0xC3}, 64), Prime1: []byte{1, 2, 3}, Prime2: []byte{4, 5}, KeySize: 512}
 	es := []entry{
 		// SMB
-		{Name: "smb.Message.Unmarshal", Call: func(in []byte) { m := message.NewMessage(); m.Unmarshal(in) }, Seeds: func() [][]byte { return smbMessages(150) }},
+		{Name: "smb.Message.Unmarshal", Call: func(in []byte) { m := message.NewMessage(); m.Unmarshal(in) }, Seeds: func() [][]byte { return smbMessages(150) },
+			Codes: smbCommandCodes(), CodesAt: smbCommandPositions},
 		{Name: "smb.Header.Unmarshal", Call: func(in []byte) { header.NewHeader().Unmarshal(in) }, Seeds: func() [][]byte { return marshaled(header.NewHeader()) }},
 		{Name: "smb.Parameters.Unmarshal", Call: func(in []byte) { parameters.NewParameters().Unmarshal(in) }, Seeds: lit("\x00", "\x02\x01\x02\x03\x04")},
 		{Name: "smb.Data.Unmarshal", Call: func(in []byte) { data.NewData().Unmarshal(in) }, Seeds: lit("\x00\x00", "\x03\x00abc")},
@@ -323,7 +328,10 @@ func entries() []entry {
 		{Name: "types.SMB_DIRECTORY_INFORMATION.Unmarshal", Call: func(in []byte) { types.NewSMB_DIRECTORY_INFORMATION().Unmarshal(in) }, Seeds: func() [][]byte { return marshaled(di) }},
 		{Name: "types.SMB_FILE_ATTRIBUTES.Unmarshal", Call: func(in []byte) { (&types.SMB_FILE_ATTRIBUTES{}).Unmarshal(in) }, Seeds: lit("\x00\x20")},
 		// LLMNR
-		{Name: "llmnr.DecodeMessage", Call: func(in []byte) { llmnr.DecodeMessage(in) }, Seeds: llmnrSeeds},
+		{Name: "llmnr.DecodeMessage", Codes: dnsCodes, Call: func(in []byte) { llmnr.DecodeMessage(in) }, Seeds: func() [][]byte {
+			_, hops := laterHopSeeds()
+			return append(append(llmnrSeeds(), llmnrTypeSeeds()...), hops...)
+		}},
 		{Name: "llmnr.DecodeDomainName@12", Call: func(in []byte) { llmnr.DecodeDomainName(in, min(12, len(in))) }, Seeds: llmnrSeeds},
 		{Name: "llmnr.DecodeDomainName@any", Call: func(in []byte) {
 			if len(in) > 0 {
@@ -341,14 +349,15 @@ func entries() []entry {
 			for _, sd := range llmnrSeeds() {
 				out = append(out, append(append([]byte{}, sd...), 0, 12))
 			}
-			return out
+			hops, _ := laterHopSeeds()
+			return append(out, hops...)
 		}},
-		{Name: "llmnr.DecodeQuestion", Call: func(in []byte) { llmnr.DecodeQuestion(in, min(12, len(in))) }, Seeds: llmnrSeeds},
-		{Name: "llmnr.DecodeResourceRecord", Call: func(in []byte) { llmnr.DecodeResourceRecord(in, min(12, len(in))) }, Seeds: llmnrSeeds},
+		{Name: "llmnr.DecodeQuestion", Codes: dnsCodes, Call: func(in []byte) { llmnr.DecodeQuestion(in, min(12, len(in))) }, Seeds: llmnrSeeds},
+		{Name: "llmnr.DecodeResourceRecord", Codes: dnsCodes, Call: func(in []byte) { llmnr.DecodeResourceRecord(in, min(12, len(in))) }, Seeds: func() [][]byte { return append(llmnrSeeds(), llmnrRecordSeeds()...) }},
 		// NBNS / NBT
-		{Name: "nbtns.NBTNSPacket.Unmarshal", Call: func(in []byte) { var p nbtns.NBTNSPacket; p.Unmarshal(in) }, Seeds: nbnsSeeds},
+		{Name: "nbtns.NBTNSPacket.Unmarshal", Codes: nbnsCodes, Call: func(in []byte) { var p nbtns.NBTNSPacket; p.Unmarshal(in) }, Seeds: func() [][]byte { return append(nbnsSeeds(), nbnsTypeSeeds()...) }},
 		{Name: "nbtns.FirstLevelDecode", Text: true, Call: func(in []byte) { nbtns.FirstLevelDecode(string(in)) }, Seeds: lit("EGFCEFEECACACACACACACACACACACACA", "EGFCEFEECACACACACACACACACACACACA.corp.example")},
-		{Name: "nbt.NBTTransport.Receive", Call: func(in []byte) {
+		{Name: "nbt.NBTTransport.Receive", Codes: nbtCodes, Call: func(in []byte) {
 			tr := nbt.NewNBTTransportFromConn(&scriptConn{bytes.NewReader(in)})
 			for i := 0; i < 4; i++ {
 				if _, err := tr.Receive(); err != nil {
@@ -356,21 +365,21 @@ func entries() []entry {
 				}
 			}
 		}, Seeds: func() [][]byte {
-			return [][]byte{frame([]byte("hello")), append(frame(nil), frame(bytes.Repeat([]byte{1}, 300))...)}
+			return append([][]byte{frame([]byte("hello")), append(frame(nil), frame(bytes.Repeat([]byte{1}, 300))...)}, nbtTypeSeeds()...)
 		}},
 		// NTLM / SPNEGO
-		{Name: "ntlm.ParseChallengeMessage", Call: func(in []byte) { ntlm.ParseChallengeMessage(in) }, Seeds: challengeSeeds},
-		{Name: "ntlm.ParseTargetInfo", Call: func(in []byte) { ntlm.ParseTargetInfo(in) }, Seeds: func() [][]byte {
-			return [][]byte{nlmp.EncodeAvPairs([]nlmp.AvPair{{ID: 2, Value: []byte("D\x00")}, {ID: 9, Value: []byte("cifs/x")}}), nlmp.EncodeAvPairs(nil)}
+		{Name: "ntlm.ParseChallengeMessage", Codes: ntlmCodes, Call: func(in []byte) { ntlm.ParseChallengeMessage(in) }, Seeds: func() [][]byte { return append(challengeSeeds(), ntlmTypeSeeds()...) }},
+		{Name: "ntlm.ParseTargetInfo", Codes: ntlmCodes, Call: func(in []byte) { ntlm.ParseTargetInfo(in) }, Seeds: func() [][]byte {
+			return [][]byte{nlmp.EncodeAvPairs([]nlmp.AvPair{{ID: 2, Value: []byte("D\x00")}, {ID: 9, Value: []byte("cifs/x")}}), nlmp.EncodeAvPairs(nil), allAvPairs()}
 		}},
 		{Name: "ntlm.version.Unmarshal", Call: func(in []byte) { (&version.Version{}).Unmarshal(in) }, Seeds: lit("\x0a\x00\xba\x47\x00\x00\x00\x0f")},
 		{Name: "spnego.ParseNegTokenResp", Call: func(in []byte) { spnego.ParseNegTokenResp(in) }, Seeds: spnegoSeeds},
 		{Name: "spnego.ExtractNTLMToken", Call: func(in []byte) { spnego.ExtractNTLMToken(in) }, Seeds: spnegoSeeds},
-		{Name: "spnego.AuthContext.ProcessChallengeToken", Call: func(in []byte) {
+		{Name: "spnego.AuthContext.ProcessChallengeToken", Codes: spnegoCodes, Call: func(in []byte) {
 			spnego.NewAuthContext(spnego.AuthTypeNTLM, "DOM", "user", "pw", "WS", true).ProcessChallengeToken(in)
 		}, Seeds: spnegoSeeds},
 		// key credentials
-		{Name: "keycredential.KeyCredential.FromBytes", Call: func(in []byte) {
+		{Name: "keycredential.KeyCredential.FromBytes", Codes: keyCredentialCodes, Call: func(in []byte) {
 			var kc keycredentiallink.KeyCredential
 			if kc.FromBytes(in) == nil {
 				kc.CheckIntegrity()
@@ -398,8 +407,18 @@ func entries() []entry {
 		{Name: "ldap.ConvertLDAPTimeStampToUnixTimeStamp", Text: true, Call: func(in []byte) { ldap.ConvertLDAPTimeStampToUnixTimeStamp(string(in)) }, Seeds: lit("132223104000000000", "-1", "9223372036854775807")},
 		{Name: "ldap.ConvertLDAPDurationToSeconds", Text: true, Call: func(in []byte) { ldap.ConvertLDAPDurationToSeconds(string(in)) }, Seeds: lit("-864000000000", "-9223372036854775808")},
 		// crypto helpers
-		{Name: "gppp.GPPPDecryptBase64", Text: true, Call: func(in []byte) { gppp.GPPPDecryptBase64(string(in)) }, Seeds: lit("j1Uyj3Vx8TY9LtLZil2uAuZkFQA/4latT76ZwgdHdhw", "AAAA", "")},
-		{Name: "gppp.GPPPDecryptBytes", Call: func(in []byte) { gppp.GPPPDecryptBytes(in) }, Seeds: func() [][]byte { return [][]byte{make([]byte, 16), make([]byte, 32)} }},
+		{Name: "gppp.GPPPDecryptBase64", Text: true, Call: func(in []byte) { gppp.GPPPDecryptBase64(string(in)) }, Seeds: func() [][]byte {
+			_, b64 := gpppSealedSeeds()
+			return append(lit("j1Uyj3Vx8TY9LtLZil2uAuZkFQA/4latT76ZwgdHdhw", "AAAA", "")(), b64...)
+		}},
+		{Name: "gppp.GPPPDecryptBytes", Call: func(in []byte) { gppp.GPPPDecryptBytes(in) }, Seeds: func() [][]byte {
+			raw, _ := gpppSealedSeeds()
+			return append([][]byte{make([]byte, 16), make([]byte, 32)}, raw...)
+		}},
+		// the input is the PLAINTEXT: it is encrypted with the published key (padded first, unless it is
+		// block-aligned and so carries its own padding) and the result handed to the decoder
+		{Name: "gppp.GPPPDecryptBytes@plaintext", Call: func(in []byte) { gppp.GPPPDecryptBytes(gpppSeal(in)) }, Seeds: gpppPlaintexts},
+		{Name: "gppp.GPPPDecryptBase64@plaintext", Call: func(in []byte) { gppp.GPPPDecryptBase64(string(gpppB64(gpppSeal(in)))) }, Seeds: gpppPlaintexts},
 		{Name: "pkcs7.Unpad", Call: func(in []byte) { pkcs7.Unpad(in) }, Seeds: lit("abc\x05\x05\x05\x05\x05", "\x01")},
 		{Name: "utf16.DecodeUTF16LE", Call: func(in []byte) { utf16.DecodeUTF16LE(in) }, Seeds: lit("a\x00b\x00", "\x3d\xd8\x00\xde", "")},
 		// UUID / GUID
